@@ -91,6 +91,8 @@ def replay(vd, vecs, bdir, wd, pid, flavour_tag="plain", check_illformed=True,
         vd.cov["evaluations"] += 1
         if r is None:
             raise common.ToolError("driver produced no record for command %d (%s)" % (i, txt))
+        if r["status"] == "skipped-after-hangs":
+            continue
         if r["status"] in ("crash", "terminate", "garbled"):
             mismatches.append((i, "crash", r))
             continue
